@@ -321,7 +321,24 @@ pub fn run_c13(rep: &Report) -> i32 {
                         // outside the solver's limits the answer may legitimately degrade differently
                         let ac = crate::oracle::AnswerCheck { refm: &pc.refm, pa: &g.pa, peeled: &g.peeled, depth: 3, solver: cfg.short(), class: pc.class };
                         let (_, info) = ac.check(want);
-                        if info.stats.capped || info.stats.max_ty_size > cfg.max_size() {
+                        // an answer that itself contains a type as large as the size limit comes from a
+                        // search the limit truncated
+                        let answer_size = |s: &DSol| -> usize {
+                            match s {
+                                DSol::Unique(x) | DSol::Definite(x) | DSol::Suggested(x) => x
+                                    .args
+                                    .iter()
+                                    .map(|a| match a {
+                                        DArg::Ty(t) => t.size(),
+                                        _ => 1,
+                                    })
+                                    .max()
+                                    .unwrap_or(0),
+                                _ => 0,
+                            }
+                        };
+                        let truncated = answer_size(&got).max(answer_size(want)) >= cfg.max_size();
+                        if truncated || info.stats.capped || info.stats.max_ty_size > cfg.max_size() {
                             *local.entry("differences_outside_limits(not judged)".into()).or_insert(0) += 1;
                             continue;
                         }
